@@ -962,12 +962,12 @@ DLLIMPORT cfg_value_t *cfg_setopt(cfg_t *cfg, cfg_opt_t *opt, const char *value)
 						int_str = &value[2];
 						break;
 					default:
-						radix = 8;
-						int_str = &value[1];
+						radix = 8; /* the leading 0 is an octal digit, "0" is a number */
 				}
 			}
+			errno = 0;
 			i = strtol(int_str, &endptr, radix);
-			if (*endptr != '\0') {
+			if (endptr == int_str || *endptr != '\0') {
 				cfg_error(cfg, _("invalid integer value for option '%s'"), opt->name);
 				return NULL;
 			}
@@ -988,8 +988,9 @@ DLLIMPORT cfg_value_t *cfg_setopt(cfg_t *cfg, cfg_opt_t *opt, const char *value)
 				errno = EINVAL;
 				return NULL;
 			}
+			errno = 0;
 			f = strtod(value, &endptr);
-			if (*endptr != '\0') {
+			if (endptr == value || *endptr != '\0') {
 				cfg_error(cfg, _("invalid floating point value for option '%s'"), opt->name);
 				return NULL;
 			}
